@@ -26,6 +26,7 @@ from glue.core.link_helpers import LinkCollection, JoinLink
 from glue.core.component_link import ComponentLink
 from glue.core.data import Data, BaseCartesianData
 from glue.core.component import DerivedComponent
+from glue.core.decorators import clear_all_caches
 from glue.core.exceptions import IncompatibleAttribute
 from glue.core.subset import Subset
 from glue.utils import unbroadcast
@@ -242,6 +243,9 @@ class LinkManager(HubListener):
                 data_collection = [data]
         else:
             data_collection = self.data_collection
+
+        # Cached subset masks can depend on values derived through the links
+        clear_all_caches()
 
         # Only keep actual Data instances since only they support links for now
         data_collection = [d for d in data_collection if isinstance(d, BaseCartesianData)]
